@@ -132,6 +132,88 @@ pub fn unreproduced(msg: &str) {
     crate::engine::evidence::note_unreproduced(msg);
 }
 
+/// Encodes "a then b" as one replayable case: kind "seq|<kind a>|<kind b>", words = [len a, a.., b..], text = a's and
+/// b's texts joined by U+001F.
+pub fn seq_case(a: &Case, b: &Case) -> Case {
+    let mut words = vec![a.words.len() as u64];
+    words.extend(a.words.iter());
+    words.extend(b.words.iter());
+    let text = if a.text.is_some() || b.text.is_some() { Some(format!("{}\u{1f}{}", a.text.clone().unwrap_or_default(), b.text.clone().unwrap_or_default())) } else { None };
+    Case { kind: format!("seq|{}|{}", a.kind, b.kind), words, text }
+}
+pub fn seq_split(c: &Case) -> Option<(Case, Case)> {
+    let parts: Vec<&str> = c.kind.splitn(3, '|').collect();
+    if parts.len() != 3 || parts[0] != "seq" {
+        return None;
+    }
+    let la = *c.words.first()? as usize;
+    if c.words.len() < 1 + la {
+        return None;
+    }
+    let (ta, tb) = match &c.text {
+        Some(t) => match t.split_once('\u{1f}') {
+            Some((x, y)) => (Some(x.to_string()), Some(y.to_string())),
+            None => (Some(t.clone()), None),
+        },
+        None => (None, None),
+    };
+    let has_text = |k: &str| k == "token" || k == "hand" || k == "from_index";
+    Some((
+        Case { kind: parts[1].to_string(), words: c.words[1..1 + la].to_vec(), text: if has_text(parts[1]) { ta } else { None } },
+        Case { kind: parts[2].to_string(), words: c.words[1 + la..].to_vec(), text: if has_text(parts[2]) { tb } else { None } },
+    ))
+}
+/// Judges a sequence case: executes a's judge (its calls into the crate), then b's; the verdict is b's.
+pub fn judge_seq(judge: Judge, c: &Case) -> Verdict {
+    match seq_split(c) {
+        None => Verdict::NotJudged("malformed sequence case".into()),
+        Some((a, b)) => {
+            let _ = judge(&a);
+            match judge(&b) {
+                Verdict::Violated { class, expected, observed } => Verdict::Violated { class: format!("history:{}", class), expected: format!("{} - also right after the call {}", expected, a.to_json().to_string_compact()), observed },
+                v => v,
+            }
+        }
+    }
+}
+
+/// Depth-2 call histories through the canonical judge, single-threaded: for every ordered pair (a, b) of `items` the
+/// calls of a are executed and then b must hold exactly as it does alone. Catches hidden state (memo, cache keyed by a
+/// lossy digest) that input enumeration cannot see by construction.
+pub fn history2(rep: &mut Report, judge: Judge, items: &[Case]) {
+    let t0 = std::time::Instant::now();
+    let kind = monitor::kind_id("history2");
+    let accs = crate::engine::enumerate::par_parts(1, |_| {
+        let mut acc = crate::engine::evidence::Acc::new(1);
+        for a in items {
+            for b in items {
+                monitor::beat(kind, &[a.words.first().copied().unwrap_or(0), b.words.first().copied().unwrap_or(0)]);
+                acc.cases += 1;
+                acc.calls += 2;
+                acc.nontrivial += (a != b) as u64;
+                let _ = judge(a);
+                if let Verdict::Violated { .. } = judge(b) {
+                    match confirm(judge, b.clone()) {
+                        Some(v) => acc.violate(v), // b is wrong on its own as well
+                        None => {
+                            let sc = seq_case(a, b);
+                            let first = judge_seq(judge, &sc);
+                            let v = match first {
+                                Verdict::Violated { class, expected, observed } => Violation { class, case: sc, expected, observed, profile: profile_name().to_string(), trace: vec![] },
+                                _ => Violation { class: format!("history:{}:not-reproducible", b.kind), case: sc, expected: "the same answer whenever the same two calls are made".into(), observed: "wrong once in sequence, right when the sequence was repeated".into(), profile: profile_name().to_string(), trace: vec![] },
+                            };
+                            acc.violate(v);
+                        }
+                    }
+                }
+            }
+        }
+        acc
+    });
+    let acc = crate::engine::evidence::Acc::merged(accs);
+    rep.add_space(&format!("histories: every ordered pair of {} representative cases (a's calls, then b judged)", items.len()), &acc, t0, "single-threaded depth-2 call sequences through the canonical judge");
+}
+
 pub fn sample_json(kind: &str, shown: &str, result: &str) -> Json {
     Json::obj().with("kind", Json::s(kind)).with("input", Json::s(shown)).with("result", Json::s(result))
 }
